@@ -4,11 +4,11 @@ package main
 // of the state-word protocol; linearizability itself is NOT decided).
 
 import (
-	"os"
 	"fmt"
 	"go/constant"
 	"go/token"
 	"go/types"
+	"os"
 	"sort"
 	"strings"
 
